@@ -580,6 +580,18 @@ def run_file(res, origin, raw, desc, rng, per_file):
         if rng.random() < 0.3:
             o.read()  # the object has already been saved once since it was loaded
             res.count("saved_once_before_edit")
+        S0_case = S0
+        if hasattr(o, "attach_module") and rng.random() < 0.15:
+            # the loaded project first gets clones of its own modules attached (duplicating a module is an everyday move);
+            # the edit then goes to the addressed object only - not to its twin
+            try:
+                for mod in [x for x in o.modules[1:] if x is not None][:4]:
+                    o.attach_module(mod.clone())
+                S0_case = _snap(o)
+                res.count("edits_after_attaching_clones")
+            except Exception:
+                o = workload.load(raw)
+                S0_case = S0
         try:
             e.apply(o)
         except Exception as ex:
@@ -626,7 +638,7 @@ def run_file(res, origin, raw, desc, rng, per_file):
             continue
         if e.cls == "payload-inplace":
             try:
-                m0, m1 = sget(S0, e.path.rsplit("[", 1)[0]), sget(S1, e.path.rsplit("[", 1)[0])
+                m0, m1 = sget(S0_case, e.path.rsplit("[", 1)[0]), sget(S1, e.path.rsplit("[", 1)[0])
                 idx = int(e.path.rsplit("[", 1)[1][:-1])
                 moved = [k for k in range(len(m0)) if k != idx and tuple(m0[k]) != tuple(m1[k])]
                 if moved:
@@ -636,7 +648,7 @@ def run_file(res, origin, raw, desc, rng, per_file):
             except (KeyError, IndexError, TypeError, ValueError):
                 pass
         if not e.coupled:
-            others = [d for d in snapshot.diff(S0, S1, limit=6) if not (d[0].startswith(e.path) or e.path.startswith(d[0]))]
+            others = [d for d in snapshot.diff(S0_case, S1, limit=6) if not (d[0].startswith(e.path) or e.path.startswith(d[0]))]
             if others:
                 res.violation(f"C06:edit-changed-other:{snapshot.field_key(e.path)}->{snapshot.field_key(others[0][0])}",
                               f"{origin}: setting {e.path} also changed {others[:2]}", case)
